@@ -313,6 +313,23 @@ static Result run_history(const Case &c, int mode) {
                 if (ref::fragment_invalid(s.g, running, s.s.frags[i].data())) fail_at(step, "model error");
             }
             if (liberasurecode_verify_stripe_metadata(s.desc, ptrs.data(), n) != 0) fail_at(step, "verify_stripe_metadata failed on the kept stripe");
+            {   // the opposite-endian image of one fragment (fields swapped, CRC recomputed and stored swapped), same placement
+                std::vector<uint8_t> tw = s.s.frags[b % n];
+                uint8_t *h = tw.data();
+                auto sw32 = [&](int off) { ref::put32(h + off, ref::bswap32(ref::get32(h + off))); };
+                sw32(ref::O_IDX); sw32(ref::O_SIZE); sw32(ref::O_BMS);
+                uint64_t o = ref::get64(h + ref::O_ORIG); ref::put64(h + ref::O_ORIG, ((uint64_t)ref::bswap32((uint32_t)o) << 32) | ref::bswap32((uint32_t)(o >> 32)));
+                for (int q = 0; q < 8; q++) sw32(ref::O_CHK + 4 * q);
+                sw32(ref::O_BEVER); sw32(ref::O_MAGIC); sw32(ref::O_LIBVER);
+                ref::put32(h + ref::O_MCRC, ref::bswap32(ref::crc32_std(h, ref::META_LEN)));
+                std::unique_ptr<Guarded> gt; std::unique_ptr<ExactBuf> et; char *tp;
+                if (guard) { gt.reset(new Guarded); gt->place(tw.data(), tw.size(), ((b >> 5) & 1) == 0, 0); tp = (char *)gt->p; } else { et.reset(new ExactBuf(tw)); tp = et->p; }
+                fragment_metadata_t md; memset(&md, 0x33, sizeof md);
+                int rc = liberasurecode_get_fragment_metadata(tp, &md);
+                if (rc != 0) fail_at(step, "metadata query rejected the opposite-endian image of a fragment rc=" + std::to_string(rc));
+                else if (md.idx != (uint32_t)(b % n) || md.size != s.s.fraglen - 80 || md.orig_data_size != s.s.data.size() || md.chksum_mismatch != 0) fail_at(step, "metadata of the opposite-endian image differs from the native one");
+                if (memcmp(tp, tw.data(), tw.size())) fail_at(step, "query modified the opposite-endian image");
+            }
             for (int i = 0; i < n; i++) if (memcmp(ptrs[i], s.s.frags[i].data(), s.s.frags[i].size())) fail_at(step, "query modified a fragment");
             break;
         }
